@@ -1799,6 +1799,10 @@ func (c *Client) doSetup(
 		return nil, liberrors.ErrClientH264PacketizationMode0{}
 	}
 
+	if mediaURL == nil {
+		return nil, fmt.Errorf("invalid media control attribute: '%v'", medi.Control)
+	}
+
 	if isSecure(th.Profile) {
 		var srtpOutKey []byte
 
